@@ -11,30 +11,39 @@ type KeyValues struct {
 }
 
 type sorter struct {
-	order map[string]int
-	kvs   []KeyValues
+	order    map[string]int
+	unlisted int // rank of the keys that are not in order
+	kvs      []KeyValues
 }
 
 func (s *sorter) Len() int      { return len(s.kvs) }
 func (s *sorter) Swap(i, j int) { s.kvs[i], s.kvs[j] = s.kvs[j], s.kvs[i] }
-func (s *sorter) Less(i, j int) bool {
+
+// rank is the position of the i-th key in the order list; keys that are
+// not listed rank after all listed ones.
+func (s *sorter) rank(i int) int {
 	if index, ok := s.order[textproto.CanonicalMIMEHeaderKey(s.kvs[i].Key)]; ok {
-		i = index
+		return index
 	}
-	if index, ok := s.order[textproto.CanonicalMIMEHeaderKey(s.kvs[j].Key)]; ok {
-		j = index
-	}
-	return i < j
+	return s.unlisted
 }
 
+func (s *sorter) Less(i, j int) bool {
+	return s.rank(i) < s.rank(j)
+}
+
+// SortKeyValues sorts kvs so that the keys listed in orderedKeys come first,
+// in the order of that list; the sort is stable, so unlisted keys (and
+// entries with the same key) keep their relative order.
 func SortKeyValues(kvs []KeyValues, orderedKeys []string) {
 	order := make(map[string]int)
 	for i, key := range orderedKeys {
 		order[textproto.CanonicalMIMEHeaderKey(key)] = i
 	}
 	s := &sorter{
-		order: order,
-		kvs:   kvs,
+		order:    order,
+		unlisted: len(orderedKeys),
+		kvs:      kvs,
 	}
-	sort.Sort(s)
+	sort.Stable(s)
 }
